@@ -6,6 +6,32 @@ CompositeSystem sparse tables and the random-generation setting.  Every oracle
 is computed from operators with qv.ref (GKSL right-hand side, Choi matrix ->
 process matrix chi -> (H, J, K)), never from another quara function.
 
+History / combination steps (the statement holds for every generator object and every call, whatever happened before;
+the plain workload builds each object directly, with default options, and asks it once).  After the plain work of a
+case the same oracles judge (keys carry the suffix of the step; only public, documented operations are used; nothing is
+compared bit by bit):
+  requery        the receiver again after its projections / exponential                      (no suffix: hook keys)
+  provenance     objects the library handed out: copy() (:via-copy), scalar * / + - between products, zero / origin
+                 objects (:via-arithmetic, :via-zero-or-origin-object), var conversion there and back (:via-var), pickle
+                 round trip (:via-pickle), results of the projections projected / asked again (:via-projection-result)
+  setters        a copy asked, then set_mode_proj_order / eps_truncate_imaginary_part (:after-option-setters), then
+                 set_zero() and asked again (:after-set_zero); the composite system after its public delete_* table
+                 methods (:after-table-delete: builders, K part, projection use the rebuilt tables)
+  interleaving   the case's generator and a second one - on a sibling CompositeSystem of the same dimensions with another
+                 identity-first Hermitian basis, from the same (H, K) input matrices or from other ones (:sibling-system),
+                 or on the same system (:rival-object) - asked alternately with the basis modes / tolerances crossed; the
+                 arrays the first one returned are compared with private copies afterwards (array-held-by-the-caller...)
+  options        constructor / builder options away from the defaults (required physicality on physical generators, flags,
+                 projection order, thresholds), on the object and on its copy / product / projection
+                 (:non-default-options[:via-...]); verdict ladder again in another order, positional / keyword forms and
+                 unequal tolerances for the two constraints (:second-call)
+  re-use         a random-generation setting asked again (generator / integer seed), a second setting on the same system and
+                 one on the sibling system in between, the settings of earlier cases once more (:re-used-setting,
+                 :second-setting); catalogue names generated again after another name (:second-call)
+Which steps a case gets depends on (case number, shard) only; their draws come from the case's second random stream.
+What copy(), arithmetic or the var conversion return is not judged here (EffectiveLindbladian.generate_from_var raises a
+TypeError on the pinned tree: recorded as an observation) - only that the objects they return obey the statement.
+
 Conventions (documented in quara and used here as definitions)
   L(X) = -i[H,X] + J X + X J + sum_{a,b>=1} K_ab B_a X B_b^dagger
   H Hermitian and traceless (a multiple of the identity is invisible), J Hermitian
@@ -25,7 +51,14 @@ RULE = ("generators on S1,S3,S2 built by from_h / from_hk / from_k / from_hjk / 
         "degenerate spectrum, indefinite K of controlled negativity, 1..d^2 jump operators with non-zero trace, overall "
         "strength/time factor 10^U(-3,1); verdict cases add first rows of controlled size on an atol ladder 1e-13..1e-2; "
         "random-generation settings with strengths over 4 decades; catalogue Hamiltonians. A case is distinct by "
-        "(shape,builder,K class,rank,rounded hs) and non-trivial when the generator is not the zero map")
+        "(shape,builder,K class,rank,rounded hs) and non-trivial when the generator is not the zero map. History steps "
+        "per case (rotating menu, second random stream): the generator re-queried after its projections; objects obtained "
+        "by copy / arithmetic / zero+origin objects / var conversion / pickle / as projection results; a copy after "
+        "set_mode_proj_order, the eps setter and set_zero; the composite system after its delete_* table methods; the "
+        "generator interleaved with a second one on a sibling composite system (other basis, same dimensions) or on the "
+        "same system, basis modes and tolerances crossed, returned arrays re-read; non-default constructor / builder "
+        "options; verdict ladder in another order with unequal tolerances; random-generation settings re-used, a second "
+        "and a sibling-system setting in between")
 _EL = "quara/objects/effective_lindbladian.py:"
 ANCHORS = [_EL + f"EffectiveLindbladian.{m}" for m in (
     "calc_h_mat", "calc_j_mat", "calc_k_mat", "calc_h_part", "calc_j_part", "calc_k_part", "calc_d_part",
@@ -57,6 +90,9 @@ ASSUMPTIONS = [
     "EffectiveLindbladian), so chi = V^dagger Choi V is the process matrix",
     "scipy.linalg.expm is trusted (cross-checked per evaluation by a scaling-and-squaring Taylor series written here)",
     "var conversion of EffectiveLindbladian is outside the statement: observed behaviour is recorded as a note only",
+    "history steps use public operations only (copy, * / + -, generate_zero_obj / generate_origin_obj, var conversion functions, "
+    "pickle, set_zero, set_mode_proj_order, the eps_truncate_imaginary_part setter, CompositeSystem.delete_* table methods); what these "
+    "operations return is not judged, only that the returned generator objects obey the statement",
 ]
 
 TP, TF = 1e-10, 1e-7  # x max(1, ||input||)
@@ -215,6 +251,7 @@ class Judge:
         self.cache = {}
         self.tables = {}
         self.expect_physical = None  # set by the driver: reference says the current generator is physical
+        self.tag = ""  # suffix of the keys issued while the driver is inside a history step (see phase())
 
     def model(self, c_sys):
         m = self.models.get(id(c_sys))
@@ -262,6 +299,43 @@ def _mode_of(a, kw):
     return kw.get("mode_basis", a[0] if a else "hermitian_basis")
 
 
+class Tagged:
+    """recorder proxy handed to the hooks: while the driver is inside a history step (phase()) the mechanism keys of
+    the verdicts get the step's suffix, so a violation that only a history can produce names it"""
+
+    def __init__(self, ctx, judge):
+        self._c, self._j = ctx, judge
+
+    def _k(self, key):
+        return key if key is None else key + self._j.tag
+
+    def num(self, oracle, err, tol_pass, tol_fail, key=None, info=None):
+        return self._c.num(oracle, err, tol_pass, tol_fail, key=self._k(key), info=info)
+
+    def truth(self, oracle, ok, key=None, info=None):
+        return self._c.truth(oracle, ok, key=self._k(key), info=info)
+
+    def violation(self, key, info=None):
+        return self._c.violation(self._k(key), info)
+
+    def __getattr__(self, name):
+        return getattr(self._c, name)
+
+
+class phase:
+    """with phase(Jd, ":via-copy"): ...  -  keys issued by the hooks inside carry the suffix"""
+
+    def __init__(self, judge, tag):
+        self.j, self.tag = judge, tag
+
+    def __enter__(self):
+        self.old, self.j.tag = self.j.tag, self.tag
+
+    def __exit__(self, *exc):
+        self.j.tag = self.old
+        return False
+
+
 def install(ctx):
     import quara.objects.effective_lindbladian as elm
     import quara.simulation.random_effective_lindbladian_generation_setting as rsm
@@ -271,6 +345,8 @@ def install(ctx):
     EL = elm.EffectiveLindbladian
     hs = HookSet(ctx)
     Jd = Judge(ctx)
+    raw = ctx  # the jump-operator oracles keep their plain keys (known findings are matched by exact key)
+    ctx = Jd.ctx = Tagged(raw, Jd)
 
     # ---------------- extraction
     def pre_copy(self, *a, **kw):
@@ -366,7 +442,7 @@ def install(ctx):
         key = f"{fname}:{part}-part:differs-from-gksl"
         if err >= TF and mx(np.asarray(got) - ref.hs_of_map(units, bad[part])) / sc <= TP:
             key = f"{fname}:{part}-part:uses-c-instead-of-cdagger-c"
-        ctx.num(oracle, err, TP, TF, key=key, info={"n_jump": len(cs), "tr_c": [complex(np.trace(c)) for c in cs][:4]})
+        raw.num(oracle, err, TP, TF, key=key, info={"n_jump": len(cs), "tr_c": [complex(np.trace(c)) for c in cs][:4]})
 
     def mk_jump_cb(part):
         def post(res, snap, jump_operators, *a, **kw):
@@ -398,7 +474,7 @@ def install(ctx):
         key = "generate_effective_lindbladian_from_jump_operators:raises-on-valid-jump-operators:" + type(exc).__name__
         if req and isinstance(exc, ValueError) and mx(hb[0]) > 1e-9 and "physically" in str(exc):
             key = "generate_effective_lindbladian_from_jump_operators:rejects-valid-jump-operators:d-part-uses-c-instead-of-cdagger-c"
-        ctx.truth("from_jump_operators:accepts-valid", False, key=key, info={"exc": repr(exc)[:200]})
+        raw.truth("from_jump_operators:accepts-valid", False, key=key, info={"exc": repr(exc)[:200]})
 
     hs.function(elm, "generate_effective_lindbladian_from_jump_operators", post=post_from_jump, on_exc=exc_from_jump)
 
@@ -557,8 +633,12 @@ def install(ctx):
 
     def mk_table(name, idx):
         def post(res, snap, self):
+            # judged once per table object and content: a table that was deleted and rebuilt (public delete_* methods) or
+            # whose entries changed since it was judged is judged again
+            d = getattr(res, "data", None)
+            fp = None if d is None else (int(getattr(res, "nnz", -1)), float(np.abs(d).sum()), complex(np.sum(d)))
             seen = Jd.tables.get((id(self), name))
-            if seen is not None and seen[0] is self and seen[1] is res:
+            if seen is not None and seen[0] is self and seen[1] is res and seen[2] == fp:
                 return
             M = Jd.model(self)
             want = dense_tables(M)[idx]
@@ -567,7 +647,7 @@ def install(ctx):
                 ctx.truth(f"table:{name}", False, key=f"CompositeSystem.{name}:wrong-shape", info={"got": list(got.shape), "want": list(want.shape)})
             else:
                 ctx.num(f"table:{name}", mx(got - want), 1e-13, 1e-10, key=f"CompositeSystem.{name}:differs-from-dense-definition")
-            Jd.tables[(id(self), name)] = (self, res)
+            Jd.tables[(id(self), name)] = (self, res, fp)
         return post
 
     hs.method(CompositeSystem, "basis_basisconjugate_T_sparse_from_1", post=mk_table("basis_basisconjugate_T_sparse_from_1", 0))
@@ -679,7 +759,349 @@ def requery(ctx, L):
     ctx.count("history:requery-after-projection")
 
 
-def exercise(ctx, hsx, Jd, elm, L, M, inp, tag):
+# ----------------------------------------------------------- history / combination steps
+#
+# The statement holds for every generator object and every call, whatever the object, its composite system or the
+# library did before.  The steps below reach objects and calls the plain workload never produces; all answers are
+# judged by the same oracles (the hooks judge every call against the reference model of the receiver's own hs).
+
+CALLS = ("calc_h_mat", "calc_j_mat", "calc_k_mat", "calc_h_part", "calc_j_part", "calc_k_part", "calc_d_part", "is_tp", "is_cp",
+         "is_physical", "calc_proj_eq_constraint", "calc_proj_ineq_constraint", "to_gate")
+TABLE_DELETES = ("delete_basis_basisconjugate_T_sparse_from_1", "delete_basishermitian_basis_T_from_1",
+                 "delete_basis_basisconjugate_T_sparse", "delete_basisconjugate_basis_sparse")
+
+
+def sibling_csys(dims, which=1):
+    """a second CompositeSystem of the same dimensions whose (orthonormal, Hermitian, identity-first) basis is the
+    standard one with the traceless elements of every subsystem rotated by a fixed real orthogonal matrix"""
+    from quara.objects import matrix_basis as mb
+    from quara.objects.composite_system import CompositeSystem
+    from quara.objects.elemental_system import ElementalSystem
+
+    es = []
+    for pos, d in enumerate(dims):
+        std = [ref.dense(b) for b in gen.local_basis(d, "std")]
+        n1 = len(std) - 1
+        Q, _ = np.linalg.qr(np.random.default_rng(1800 + 10 * which + pos).standard_normal((n1, n1)))
+        new = [std[0]] + [sum(Q[a, b] * std[1 + b] for b in range(n1)) for a in range(n1)]
+        es.append(ElementalSystem(pos, mb.MatrixBasis(new)))
+    return CompositeSystem(es)
+
+
+def draw_hk(M, rng):
+    H = ref.rand_herm(M.d, rng)
+    H = float(10 ** rng.uniform(-2, 0.5)) * H / np.linalg.norm(H, 2)
+    kclass = ("rank", "rank", "deg", "indef")[int(rng.integers(4))]
+    K = draw_k(M, rng, kclass, int(rng.integers(0, M.n)), float(10 ** rng.uniform(-2, 0.5)))
+    return H, K
+
+
+def call_kw(name, mode, a, b=None):
+    if name.endswith("_part"):
+        return {"mode_basis": mode}
+    if name in ("is_tp", "is_cp"):
+        return {"atol": a}
+    if name == "is_physical":
+        return {"atol_eq_const": a, "atol_ineq_const": a if b is None else b}
+    return {}
+
+
+def put(ctx, obj, name, sfx, **kw):
+    """one question; whether the answer is right is the hooks' business.  An exception where the property promises a
+    value (extraction, parts, equality projection) is a violation; projections / to_gate exceptions are judged by the
+    on_exc hooks"""
+    ok, val = ctx.attempt(getattr(obj, name), **kw)
+    if not ok and (name.endswith("_mat") or name.endswith("_part") or name.startswith("is_") or name == "calc_proj_eq_constraint"):
+        ctx.violation(f"{name}{sfx}:" + ctx.exc_key(val), {})
+    return ok, val
+
+
+def ask(ctx, Jd, elm, D, sfx, rng, light=False):
+    """the questions of the property put to a generator object D that the library handed out (copy, arithmetic, var
+    conversion, projection result, pickle ...) or that has a history; keys carry the suffix of the step"""
+    with phase(Jd, sfx):
+        v = Jd.view(D)
+        M, sc = v["M"], v["scale"]
+        before = np.array(D.hs, copy=True)
+        got = {}
+        for j in rng.permutation(3):
+            nm = ("calc_h_mat", "calc_j_mat", "calc_k_mat")[int(j)]
+            ok, val = put(ctx, D, nm, sfx)
+            if ok:
+                got[nm] = val
+        if len(got) == 3:
+            ok, L2 = ctx.attempt(elm.generate_effective_lindbladian_from_hjk, D.composite_system, got["calc_h_mat"], got["calc_j_mat"],
+                                 got["calc_k_mat"], is_physicality_required=False)
+            if not ok:
+                ctx.violation(f"roundtrip:extract->from_hjk{sfx}:" + ctx.exc_key(L2), {})
+            else:
+                ctx.num("roundtrip:extract->from_hjk", mx(L2.hs - before) / sc, TP, TF, key="roundtrip:extract->from_hjk:hs-not-reproduced" + sfx)
+        mode = MODES[int(rng.integers(2))]
+        parts = {}
+        for j in rng.permutation(4):
+            w = "hjkd"[int(j)]
+            if light and w != "d":
+                continue  # calc_d_part asks calc_j_part and calc_k_part itself: their hooks judge those answers too
+            ok, pt = put(ctx, D, f"calc_{w}_part", sfx, mode_basis=mode)
+            if ok:
+                parts[w] = np.asarray(pt)
+        if len(parts) == 4:
+            whole = before if mode == "hermitian_basis" else M.mat(lambda X: ref.apply_hs(M.B, before, X), "comp_basis")
+            ctx.num(f"parts:h+j+k=whole:{mode}", mx(parts["h"] + parts["j"] + parts["k"] - whole) / sc, TP, TF,
+                    key=f"parts:{mode}:h+j+k-differs-from-whole" + sfx)
+        if "d" in parts and "j" in parts and "k" in parts:
+            ctx.num(f"parts:d=j+k:{mode}", mx(parts["d"] - parts["j"] - parts["k"]) / sc, TP, TF, key=f"parts:{mode}:d-differs-from-j+k" + sfx)
+        if not light:
+            put(ctx, D, "calc_d_part", sfx, mode_basis=MODES[1 - MODES.index(mode)])
+        a, b = float(rng.choice(ATOLS)), float(rng.choice(ATOLS))
+        put(ctx, D, "is_physical", sfx, **({} if rng.random() < 0.5 else call_kw("is_physical", None, a, b)))
+        if not light:
+            put(ctx, D, "is_tp", sfx, atol=a)
+            put(ctx, D, "is_cp", sfx, atol=b)
+        put(ctx, D, "calc_proj_eq_constraint", sfx)
+        ctx.attempt(D.calc_proj_ineq_constraint)
+        okg, g = ctx.attempt(D.to_gate)
+        if not okg and not isinstance(g, ValueError):
+            ctx.violation(f"to_gate{sfx}:" + ctx.exc_key(g), {})
+        ctx.truth("driver:operand-unchanged", np.array_equal(before, D.hs), key="EffectiveLindbladian:hs-mutated-by-a-method" + sfx)
+
+
+def interleave(ctx, Jd, A, B, sfx, rng, ncalls):
+    """the same questions put alternately to two generator objects (A, B, A ...) with the basis modes / tolerances
+    crossed, so that anything remembered per class, shape or composite-system size instead of per object answers A with
+    B's data; the arrays A returned are kept and compared with private copies after the later calls"""
+    with phase(Jd, sfx):
+        held = []
+        for j in rng.permutation(len(CALLS))[:ncalls]:
+            nm = CALLS[int(j)]
+            m = int(rng.integers(2))
+            a, b = float(rng.choice(ATOLS)), float(rng.choice(ATOLS))
+            ok, ra = put(ctx, A, nm, sfx, **call_kw(nm, MODES[m], a))
+            if ok and isinstance(ra, np.ndarray):
+                held.append((nm, ra, np.array(ra, copy=True)))
+            put(ctx, B, nm, sfx, **call_kw(nm, MODES[1 - m], b))
+            if rng.random() < 0.5:
+                put(ctx, A, nm, sfx, **call_kw(nm, MODES[1 - m], b))
+        sc = Jd.view(A)["scale"]
+        for nm, arr, snap in held:
+            ctx.num("held-result-unchanged", mx(arr - snap) / sc, TP, TF, key=f"{nm}:array-held-by-the-caller-changed-after-later-calls" + sfx)
+
+
+class History:
+    """shard-long state of the history steps and the step menu.  Which steps a case gets depends on the case number and
+    the shard only (a replay re-runs the same steps); all draws come from the case's second random stream, so the plain
+    workload of a case is what it was without the steps."""
+
+    MENU = ("copy", "setzero", "sibling", "arith", "projres", "rival", "var", "tabledel", "options", "pickle")
+    PER_CASE = {"S1": 2, "S3": 1, "S2": 1}  # the library's calc_k_mat is what costs: ~9 / 50 / 200 ms per call
+    NCALLS = {"S1": 6, "S3": 3, "S2": 3}
+
+    def __init__(self, ctx, Jd, elm, c_sys, M, shape):
+        self.ctx, self.Jd, self.elm, self.c_sys, self.M, self.shape = ctx, Jd, elm, c_sys, M, shape
+        self._sib = None
+        self.light = shape != "S1"
+
+    def sibling(self):
+        if self._sib is None:
+            c = sibling_csys(gen.SHAPES[self.shape])
+            self._sib = (c, self.Jd.model(c))
+        return self._sib
+
+    def menu_of_case(self):
+        i = int(self.ctx.cur_case or 0)
+        per = self.PER_CASE[self.shape]
+        start = (i * per + 3 * int(self.ctx.params.get("slot", 0))) % len(self.MENU)
+        return [self.MENU[(start + j) % len(self.MENU)] for j in range(per)]
+
+    def steps(self, L, inp):
+        rng = self.ctx.rng(1)
+        for pos, name in enumerate(self.menu_of_case()):
+            self.light = self.shape != "S1" or pos > 0  # one qubit: the first step of a case in the long form
+            getattr(self, "step_" + name)(L, inp, rng)
+            self.ctx.count("history:" + name)
+
+    # ---- provenance: objects handed out by the library instead of built by the driver
+    def derived(self, route, fn, sfx, rng, light=None):
+        ok, D = self.ctx.attempt(fn)
+        if not ok:
+            # what copy() / arithmetic / conversions do is not the subject of this property: recorded, not judged
+            self.ctx.count(f"observation:{route}-raised:{type(D).__name__}")
+            return None
+        if type(D).__name__ != "EffectiveLindbladian":
+            self.ctx.count(f"observation:{route}-returns-{type(D).__name__}")
+            return None
+        ask(self.ctx, self.Jd, self.elm, D, sfx, rng, self.light if light is None else light)
+        return D
+
+    def step_copy(self, L, inp, rng):
+        D = self.derived("copy", L.copy, ":via-copy", rng)
+        if D is not None and not self.light:
+            self.derived("copy-of-copy", D.copy, ":via-copy", rng, light=True)
+
+    def step_arith(self, L, inp, rng):
+        def scalar():
+            x = float(rng.choice([0.5, 2.0, 3.0, 0.1, 7.0]))
+            t = int(rng.integers(4))
+            return (x, np.float64(x), int(max(2, round(x))), np.int64(max(2, round(x))))[t]
+
+        a, b = scalar(), scalar()
+        route = ("mul", "rmul", "div", "add", "sub", "add-zero", "zero", "origin")[int(rng.integers(8))]
+        fn = {"mul": lambda: L * a, "rmul": lambda: a * L, "div": lambda: L / a, "add": lambda: (L * a) + (b * L),
+              "sub": lambda: (L * a) - (L / b), "add-zero": lambda: (L * a) + (L * a).generate_zero_obj(),
+              "zero": L.generate_zero_obj, "origin": L.generate_origin_obj}[route]
+        self.derived("arithmetic:" + route, fn, ":via-arithmetic" if route not in ("zero", "origin") else ":via-zero-or-origin-object", rng)
+
+    def step_var(self, L, inp, rng):
+        ctx, elm = self.ctx, self.elm
+        flag = bool(L.on_para_eq_constraint) if rng.random() < 0.5 else False
+        ok, var = ctx.attempt(elm.convert_effective_lindbladian_to_var, L.composite_system, L.hs, on_para_eq_constraint=flag)
+        if not ok:
+            ctx.count(f"observation:convert_effective_lindbladian_to_var-raised:{type(var).__name__}")
+            return
+        # (the conversion itself is outside the statement; with the flag set it inserts the first row of a gate)
+        self.derived("convert_var_to_effective_lindbladian", lambda: elm.convert_var_to_effective_lindbladian(
+            L.composite_system, var, is_physicality_required=False, on_para_eq_constraint=flag), ":via-var", rng)
+        ok, D = ctx.attempt(lambda: L.generate_from_var(L.to_var(), is_physicality_required=False))
+        if ok and type(D).__name__ == "EffectiveLindbladian":
+            ask(ctx, self.Jd, elm, D, ":via-var", rng, True)
+        elif not ok:
+            ctx.count(f"observation:EffectiveLindbladian.generate_from_var-raised:{type(D).__name__}")
+
+    def step_pickle(self, L, inp, rng):
+        import pickle
+
+        D = self.derived("pickle", lambda: pickle.loads(pickle.dumps(L)), ":via-pickle", rng)
+        if D is not None:
+            # the un-pickled generator lives on its own composite system (with its own tables): forget its model
+            self.Jd.models.pop(id(D.composite_system), None)
+            self.Jd.cache.clear()
+
+    def step_projres(self, L, inp, rng):
+        ctx = self.ctx
+        ok, P = ctx.attempt(L.calc_proj_ineq_constraint)
+        if ok:
+            ask(ctx, self.Jd, self.elm, P, ":via-projection-result", rng, self.light)
+        ok, Pe = ctx.attempt(L.calc_proj_eq_constraint)
+        if ok and not self.light:
+            with phase(self.Jd, ":via-projection-result"):
+                ok, Q = ctx.attempt(Pe.calc_proj_ineq_constraint)
+            if ok:
+                ask(ctx, self.Jd, self.elm, Q, ":via-projection-result", rng, True)
+
+    # ---- the same object after a public setter
+    def step_setzero(self, L, inp, rng):
+        ctx, Jd = self.ctx, self.Jd
+        ok, D = ctx.attempt(L.copy)
+        if not ok:
+            ctx.count(f"observation:copy-raised:{type(D).__name__}")
+            return
+        m = int(rng.integers(2))
+        first = ("calc_k_mat", "calc_d_part", "calc_j_mat", "calc_h_mat", "calc_k_part", "is_physical", "calc_proj_ineq_constraint", "to_gate")
+        with phase(Jd, ":via-copy"):
+            for nm in first[:2] if self.light else first:
+                put(ctx, D, nm, ":via-copy", **call_kw(nm, MODES[m], None))
+        with phase(Jd, ":after-option-setters"):
+            D.set_mode_proj_order("ineq_eq" if D.mode_proj_order == "eq_ineq" else "eq_ineq")
+            D.eps_truncate_imaginary_part = 1e-12
+            for nm in ("calc_h_part",) if self.light else ("calc_k_mat", "calc_j_part", "calc_h_part", "calc_d_part", "is_physical"):
+                put(ctx, D, nm, ":after-option-setters", **call_kw(nm, MODES[1 - m], None))
+        ok, r = ctx.attempt(D.set_zero)
+        if not ok:
+            ctx.count(f"observation:set_zero-raised:{type(r).__name__}")
+            return
+        if mx(D.hs) != 0.0:
+            ctx.count("observation:set_zero-leaves-non-zero-hs")
+        with phase(Jd, ":after-set_zero"):
+            for nm in ("calc_k_mat", "calc_j_mat", "calc_h_mat", "calc_d_part", "calc_k_part", "calc_j_part", "calc_h_part", "is_physical", "is_cp",
+                       "is_tp", "calc_proj_eq_constraint", "calc_proj_ineq_constraint", "to_gate"):
+                if self.light and nm in ("calc_k_part", "calc_j_part", "calc_h_part", "is_cp", "is_tp", "calc_proj_eq_constraint"):
+                    continue
+                put(ctx, D, nm, ":after-set_zero", **call_kw(nm, MODES[int(rng.integers(2))], None))
+
+    # ---- two objects of one class and size interleaved
+    def other_generator(self, c_sys, M, inp, rng, same_inputs):
+        """a second generator: from the case's own (H, K) coefficient matrices (on another basis they denote another
+        map) or from fresh ones"""
+        if same_inputs and "H" in inp and "K" in inp:
+            H, K = np.array(inp["H"], dtype=complex), np.array(inp["K"], dtype=complex)
+        else:
+            H, K = draw_hk(M, rng)
+        # builder options away from their defaults (none of them enters the generator's matrix)
+        opts = {"is_physicality_required": False, "on_para_eq_constraint": bool(rng.random() < 0.5), "is_estimation_object": bool(rng.random() < 0.5),
+                "mode_proj_order": ("eq_ineq", "ineq_eq")[int(rng.integers(2))], "eps_truncate_imaginary_part": (None, 1e-12)[int(rng.integers(2))]}
+        ok, R = self.ctx.attempt(self.elm.generate_effective_lindbladian_from_hk, c_sys, H, K, **opts)
+        if not ok:
+            self.ctx.violation("generate_effective_lindbladian_from_hk:" + self.ctx.exc_key(R) + self.Jd.tag, {})
+            return None
+        return R
+
+    def step_sibling(self, L, inp, rng):
+        c_sib, Ms = self.sibling()
+        with phase(self.Jd, ":sibling-system"):
+            S = self.other_generator(c_sib, Ms, inp, rng, rng.random() < 0.5)
+        if S is not None:
+            interleave(self.ctx, self.Jd, L, S, ":sibling-system", rng, self.NCALLS[self.shape])
+
+    def step_rival(self, L, inp, rng):
+        with phase(self.Jd, ":rival-object"):
+            R = self.other_generator(L.composite_system, self.Jd.model(L.composite_system), {}, rng, False)
+        if R is not None:
+            interleave(self.ctx, self.Jd, L, R, ":rival-object", rng, self.NCALLS[self.shape])
+
+    # ---- the composite system after its tables were dropped (documented: "if you use X again, call X again")
+    def step_tabledel(self, L, inp, rng):
+        ctx, Jd = self.ctx, self.Jd
+        c_sys = L.composite_system
+        M = Jd.model(c_sys)
+        pick = [nm for nm in TABLE_DELETES if rng.random() < 0.5] or [TABLE_DELETES[int(rng.integers(2))]]
+        for nm in pick:
+            ok, r = ctx.attempt(getattr(c_sys, nm))
+            if not ok:
+                ctx.count(f"observation:{nm}-raised:{type(r).__name__}")
+        with phase(Jd, ":after-table-delete"):
+            H, K = (inp["H"], inp["K"]) if ("H" in inp and "K" in inp) else draw_hk(M, rng)
+            ok, R = ctx.attempt(self.elm.generate_effective_lindbladian_from_hk, c_sys, np.array(H, dtype=complex), np.array(K, dtype=complex),
+                                is_physicality_required=False)
+            if not ok:
+                ctx.violation("generate_effective_lindbladian_from_hk:" + ctx.exc_key(R) + ":after-table-delete", {})
+            put(ctx, L, "calc_k_part", ":after-table-delete", mode_basis=MODES[int(rng.integers(2))])
+            ctx.attempt(L.calc_proj_ineq_constraint)
+            if not self.light:
+                ok, K2 = ctx.attempt(self.elm.generate_effective_lindbladian_from_k, c_sys, draw_hk(M, rng)[1], is_physicality_required=False)
+                if not ok:
+                    ctx.violation("generate_effective_lindbladian_from_k:" + ctx.exc_key(K2) + ":after-table-delete", {})
+                put(ctx, L, "calc_d_part", ":after-table-delete", mode_basis=MODES[int(rng.integers(2))])
+
+    # ---- non-default constructor options, on the first and on later calls and through copy / arithmetic
+    def step_options(self, L, inp, rng):
+        ctx, Jd = self.ctx, self.Jd
+        v = Jd.view(L)
+        from quara.settings import Settings
+
+        a0 = Settings.get_atol()
+        safe = zone(v["eq_lo"], v["eq_hi"], a0) == "accept" and zone(v["ineq"], v["ineq"], a0, v["noise"]) == "accept"
+        opts = {"is_physicality_required": bool(safe and rng.random() < 0.7), "is_estimation_object": bool(rng.random() < 0.5),
+                "on_para_eq_constraint": bool(rng.random() < 0.5), "on_algo_eq_constraint": bool(rng.random() < 0.5),
+                "on_algo_ineq_constraint": bool(rng.random() < 0.5), "mode_proj_order": ("eq_ineq", "ineq_eq")[int(rng.integers(2))],
+                "eps_proj_physical": (None, 1e-9, 1e-5)[int(rng.integers(3))], "eps_truncate_imaginary_part": (None, 1e-12)[int(rng.integers(2))]}
+        with phase(Jd, ":non-default-options"):
+            ok, D = ctx.attempt(self.elm.EffectiveLindbladian, L.composite_system, np.array(L.hs, copy=True), **opts)
+            if not ok and opts["is_physicality_required"]:
+                # the rejection of a physical generator is judged by the verdict hooks inside the constructor
+                opts["is_physicality_required"] = False
+                ok, D = ctx.attempt(self.elm.EffectiveLindbladian, L.composite_system, np.array(L.hs, copy=True), **opts)
+        if not ok:
+            ctx.violation("EffectiveLindbladian.ctor:non-default-options:" + ctx.exc_key(D), {"opts": {k: str(x) for k, x in opts.items()}})
+            return
+        route = ("copy", "mul", "projection")[int(rng.integers(3))]
+        fn = {"copy": D.copy, "mul": lambda: D * 1.0, "projection": D.calc_proj_eq_constraint}[route]
+        if not self.light or rng.random() < 0.5:
+            ask(ctx, Jd, self.elm, D, ":non-default-options", rng, self.light)
+        if not self.light or rng.random() < 0.5:
+            self.derived("options+" + route, fn, ":non-default-options:via-" + route, rng, light=True)
+
+
+def exercise(ctx, hsx, Jd, elm, L, M, inp, tag, hist=None):
     """extraction, round trip, parts, projections, exponential for one generator object"""
     d = M.d
     v = Jd.view(L)
@@ -751,6 +1173,10 @@ def exercise(ctx, hsx, Jd, elm, L, M, inp, tag):
             if mx(Lv.hs[1:] - before[1:]) < 1e-12 and abs(Lv.hs[0, 0] - 1) < 1e-12 and mx(Lv.hs[0, 1:]) < 1e-12:
                 ctx.count("observation:convert_var_to_effective_lindbladian-inserts-gate-first-row(1,0,..,0)")
     ctx.truth("driver:operand-unchanged", np.array_equal(before, L.hs), key="EffectiveLindbladian:hs-mutated-by-a-method", info={"tag": tag})
+    if hist is not None:
+        hist.steps(L, inp)
+        ctx.truth("driver:operand-unchanged", np.array_equal(before, L.hs), key="EffectiveLindbladian:hs-mutated-by-a-method:history-steps",
+                  info={"tag": tag})
 
 
 def run_gen(ctx, hsx, Jd, M, c_sys, shape):
@@ -759,6 +1185,7 @@ def run_gen(ctx, hsx, Jd, M, c_sys, shape):
     p = ctx.params
     d, n1 = M.d, M.n - 1
     builder = p["builder"]
+    hist = History(ctx, Jd, elm, c_sys, M, shape)
     for i in ctx.cases(p["n"]):
         rng = ctx.rng()
         t = float(10 ** rng.uniform(-3, 1))
@@ -832,7 +1259,55 @@ def run_gen(ctx, hsx, Jd, M, c_sys, shape):
         if i < 2:
             ctx.sample({"mode": "gen", "shape": shape, "builder": builder, "K_class": kclass, "rank_or_njump": rank, "strength_t": t,
                         "strength_h": th, "physicality_required": req, "hs": np.asarray(L.hs)})
-        exercise(ctx, hsx, Jd, elm, L, M, inp, tag)
+        exercise(ctx, hsx, Jd, elm, L, M, inp, tag, hist)
+
+
+def verdict_history(ctx, Jd, elm, L, prev_L, shape):
+    """history steps of a verdict case: the ladder once more in another order and with other argument forms
+    (positional / keyword, unequal tolerances for the two constraints), the verdicts of objects derived from L, and the
+    verdicts of L and of the previous case's generator (kept alive) asked alternately"""
+    rng = ctx.rng(1)
+    light = shape != "S1"
+    with phase(Jd, ":second-call"):
+        for a in [float(x) for x in rng.permutation(ATOLS)][:2 if light else 3]:
+            b = float(rng.choice(ATOLS))
+            put(ctx, L, "is_physical", ":second-call", atol_eq_const=a, atol_ineq_const=b)
+            ctx.attempt(L.is_cp, a)
+            ctx.attempt(L.is_tp, atol=b)
+            if not light:
+                ctx.attempt(L.is_eq_constraint_satisfied, atol=a)
+                if rng.random() < 0.5:
+                    ctx.attempt(L.is_ineq_constraint_satisfied, atol=b)
+                else:
+                    ctx.attempt(L.is_physical, atol_ineq_const=a)
+    route = ("copy", "mul", "var")[int(rng.integers(3))]
+    fn = {"copy": L.copy, "mul": lambda: L * 1.0,
+          "var": lambda: elm.convert_var_to_effective_lindbladian(L.composite_system, elm.convert_effective_lindbladian_to_var(
+              L.composite_system, L.hs, on_para_eq_constraint=False), is_physicality_required=False, on_para_eq_constraint=False)}[route]
+    ok, D = ctx.attempt(fn)
+    sfx = {"copy": ":via-copy", "mul": ":via-arithmetic", "var": ":via-var"}[route]
+    if not ok or type(D).__name__ != "EffectiveLindbladian":
+        ctx.count(f"observation:{route}-raised-or-other-type")
+    else:
+        with phase(Jd, sfx):
+            for a in [float(x) for x in rng.permutation(ATOLS)][:1 if light else 2]:
+                put(ctx, D, "is_physical", sfx, atol_eq_const=a, atol_ineq_const=a)
+                put(ctx, D, "is_tp", sfx, atol=a)
+                if not light:
+                    put(ctx, D, "is_cp", sfx, atol=a)
+            put(ctx, D, "is_physical", sfx)
+    if prev_L is not None:
+        interleave_verdicts = ("is_cp", "is_tp", "is_physical", "is_ineq_constraint_satisfied", "is_eq_constraint_satisfied")
+        with phase(Jd, ":rival-object"):
+            for j in rng.permutation(len(interleave_verdicts))[:2 if light else 3]:
+                nm = interleave_verdicts[int(j)]
+                a, b = float(rng.choice(ATOLS)), float(rng.choice(ATOLS))
+                kw = (lambda t: {"atol_eq_const": t, "atol_ineq_const": t}) if nm == "is_physical" else (lambda t: {"atol": t})
+                put(ctx, L, nm, ":rival-object", **kw(a))
+                put(ctx, prev_L, nm, ":rival-object", **kw(b))
+                put(ctx, L, nm, ":rival-object", **kw(b))
+    ctx.count("history:verdicts")
+    return L
 
 
 def run_verdict(ctx, hsx, Jd, M, c_sys, shape):
@@ -842,6 +1317,7 @@ def run_verdict(ctx, hsx, Jd, M, c_sys, shape):
     p = ctx.params
     d, n1 = M.d, M.n - 1
     default_atol = Settings.get_atol()
+    prev_L = None
     try:
         for i in ctx.cases(p["n"]):
             rng = ctx.rng()
@@ -929,8 +1405,65 @@ def run_verdict(ctx, hsx, Jd, M, c_sys, shape):
                 ctx.violation("calc_proj_eq_constraint:" + ctx.exc_key(pe), {"viol": viol})
             ctx.attempt(L.calc_proj_ineq_constraint)  # exceptions are judged by the on_exc hook
             requery(ctx, L)
+            prev_L = verdict_history(ctx, Jd, elm, L, prev_L, shape)
     finally:
         Settings.set_atol(default_atol)
+
+
+def random_history(ctx, Jd, elm, RS, hist, st, kind, pool, i):
+    """re-use of random-generation settings: the case's setting asked again (another stream, an integer seed), a second
+    setting on the same system and one on the sibling system with other strengths / base generator / base object in
+    between, and the settings of earlier cases once more.  The hook judges every call of
+    generate_random_effective_lindbladian from what that call returned and the receiver's own strengths"""
+    rng = ctx.rng(1)
+    c_sys, M = hist.c_sys, hist.M
+
+    def fresh_setting(cs, Mx, sfx):
+        sh, sk = float(10 ** rng.uniform(-3, 1)), float(10 ** rng.uniform(-3, 1))
+        ok, base = ctx.attempt(elm.generate_effective_lindbladian_from_h, cs, ref.rand_herm(Mx.d, rng))
+        if not ok:
+            ctx.violation("generate_effective_lindbladian_from_h:" + ctx.exc_key(base) + sfx, {})
+            return None
+        k2 = ("gate", "state", "povm")[int(rng.integers(3))]
+        qb = gen.rand_gate(cs, rng, r=2) if k2 == "gate" else gen.rand_state(cs, rng) if k2 == "state" else gen.rand_povm(cs, 3, rng)
+        ok, s2 = ctx.attempt(RS, cs, qb, base, sh, sk, is_physicality_required=bool(rng.random() < 0.5))
+        if not ok:
+            ctx.violation("RandomEffectiveLindbladianGenerationSetting.ctor:" + ctx.exc_key(s2) + sfx, {})
+            return None
+        return s2, k2
+
+    def use(setting, k2, sfx, whole):
+        seed = int(rng.integers(2 ** 31))
+        arg = seed if rng.random() < 0.4 else np.random.default_rng(seed)
+        with phase(Jd, sfx):
+            if not whole:
+                ok, out = ctx.attempt(setting.generate_random_effective_lindbladian, arg)
+                if not ok:
+                    ctx.violation("RandomEffectiveLindbladianGenerationSetting.generate_random_effective_lindbladian:" + ctx.exc_key(out) + sfx, {})
+                return
+            ok, out = ctx.attempt(setting.generate, arg)
+        if not ok:
+            ctx.violation("RandomEffectiveLindbladianGenerationSetting.generate:" + ctx.exc_key(out) + sfx, {"kind": k2})
+            return
+        gv = gen.ref_violations(out[0])
+        ctx.num("random_setting:generated-object-physical", max(gv["eq"], gv["ineq"]), TP, TF,
+                key=f"RandomEffectiveLindbladianGenerationSetting.generate:{k2}-not-physical" + sfx, info=gv)
+
+    use(st, kind, ":re-used-setting", False)
+    second = fresh_setting(c_sys, M, ":second-setting")
+    if second is not None:
+        use(second[0], second[1], ":second-setting", False)
+    if hist.shape != "S2" or i == 0:
+        c_sib, Ms = hist.sibling()
+        sib = fresh_setting(c_sib, Ms, ":sibling-system")
+        if sib is not None:
+            use(sib[0], sib[1], ":sibling-system", hist.shape != "S2")
+    use(st, kind, ":re-used-setting", True)
+    if second is not None:
+        use(second[0], second[1], ":second-setting", hist.shape == "S1")
+    for old, k_old in pool[-2:]:
+        use(old, k_old, ":re-used-setting", False)
+    ctx.count("history:random-settings")
 
 
 def run_random(ctx, hsx, Jd, M, c_sys, shape):
@@ -939,6 +1472,8 @@ def run_random(ctx, hsx, Jd, M, c_sys, shape):
 
     p = ctx.params
     d = M.d
+    hist = History(ctx, Jd, elm, c_sys, M, shape)
+    pool = []  # settings of earlier cases, kept alive and used again
     for i in ctx.cases(p["n"]):
         rng = ctx.rng()
         sh = float(10 ** rng.uniform(-3, 1))
@@ -974,7 +1509,9 @@ def run_random(ctx, hsx, Jd, M, c_sys, shape):
         # the generator itself, exercised like any other
         ok, res = ctx.attempt(st.generate_random_effective_lindbladian, np.random.default_rng(int(rng.integers(2 ** 31))))
         if ok:
-            exercise(ctx, hsx, Jd, elm, res[0], M, {}, "random")
+            exercise(ctx, hsx, Jd, elm, res[0], M, {}, "random", hist)
+        random_history(ctx, Jd, elm, RS, hist, st, kind, pool, i)
+        pool.append((st, kind))
 
 
 def run_typical(ctx, hsx, Jd, M, c_sys, shape):
@@ -991,6 +1528,7 @@ def run_typical(ctx, hsx, Jd, M, c_sys, shape):
         for nm in gt.get_gate_names_2qubit():
             todo += [(nm, [0, 1]), (nm, [1, 0])] if nm in gt.get_gate_names_2qubit_asymmetric() else [(nm, [0, 1])]
     dims = gen.SHAPES[shape]
+    hist = History(ctx, Jd, elm, c_sys, M, shape)
     for i in ctx.cases(len(todo)):
         nm, ids = todo[i]
         with hsx.paused():
@@ -1007,7 +1545,18 @@ def run_typical(ctx, hsx, Jd, M, c_sys, shape):
         if i < 1:
             ctx.sample({"mode": "typical", "shape": shape, "gate_name": nm, "ids": ids, "H": H})
         exercise(ctx, hsx, Jd, elm, L, M, {"H": H, "K": np.zeros((M.n - 1, M.n - 1), dtype=complex), "J": np.zeros((M.d, M.d), dtype=complex)},
-                 "typical")
+                 "typical", hist if shape == "S1" or i % 3 == 0 else None)
+        # the same name once more, after another name was generated in between (the catalogue assumes the standard basis,
+        # so there is no sibling system here)
+        nm2, ids2 = todo[(i + 1 + int(ctx.rng(1).integers(len(todo) - 1))) % len(todo)] if len(todo) > 1 else (nm, ids)
+        ctx.attempt(typ.generate_effective_lindbladian_from_gate_name, nm2, c_sys, ids2)
+        ok, L2 = ctx.attempt(typ.generate_effective_lindbladian_from_gate_name, nm, c_sys, ids)
+        if not ok:
+            ctx.violation("typical:second-call:" + ctx.exc_key(L2), {"name": nm, "ids": ids})
+        else:
+            ctx.num("typical:hs=-i[H,.]", mx(L2.hs - M.mat(map_h(H))) / max(1.0, fro(H)), TP, TF,
+                    key="generate_effective_lindbladian_from_gate_name:hs-differs-from-commutator-with-catalogue-hamiltonian:second-call",
+                    info={"name": nm, "ids": ids, "between": nm2})
 
 
 def run_shard(ctx):
@@ -1042,3 +1591,7 @@ def run_shard(ctx):
 def finalize(merged, ctx):
     cpu = sum((e["extra"] or {}).get("cpu_s", 0.0) for e in merged["extra"])
     ctx.count("cpu_seconds_all_shards", int(round(cpu)))
+    # a history step that never ran must not pass silently
+    missing = [n for n in History.MENU + ("verdicts", "random-settings") if not merged["counters"].get("history:" + n)]
+    if missing and len(merged["extra"]) >= 36:
+        ctx.mark_inconclusive("history steps never run: " + ", ".join(missing))
